@@ -49,7 +49,7 @@ def cases(tier, seed):
         block = 24
         for idx in range(0, len(combos), block):
             out.append(dict(id='combo-%d' % idx, kind='combo', start=idx, stop=idx + block, seed=seed))
-        for idx in range(1500):
+        for idx in range(6000):
             out.append(dict(id='rand-%d' % idx, kind='rand', seed=seed * 65537 + idx, count=120))
     else:
         rng = random.Random(seed)
